@@ -266,28 +266,34 @@ func (g *Generator) buildFlattenedOneofSchema(
 ) *base.SchemaProxy {
 	msgName := g.getSchemaName(message)
 
-	// For each flattened oneof, generate per-variant schemas
-	var allVariantRefs []*base.SchemaProxy
-	var allMappings []*annotations.OneofDiscriminatorInfo
-
+	// One part per discriminated oneof: a flattened one is a oneOf over its per-variant schemas (common
+	// fields + discriminator + the variant's own fields), a nested one a oneOf over discriminator + variant
+	// member. A message with several discriminated oneofs is the allOf of its parts.
+	var parts []*base.Schema
 	for _, info := range discriminatedOneofs {
-		if !info.Flatten {
+		if info.Flatten {
+			parts = append(parts, &base.Schema{
+				OneOf:         g.buildFlattenedVariantSchemas(message, info, msgName, oneofFields),
+				Discriminator: g.buildFlattenedDiscriminator(info, msgName),
+			})
 			continue
 		}
-
-		refs := g.buildFlattenedVariantSchemas(message, info, msgName, oneofFields)
-		allVariantRefs = append(allVariantRefs, refs...)
-		allMappings = append(allMappings, info)
+		nestedProps := orderedmap.New[string, *base.SchemaProxy]()
+		groups := g.buildNestedOneofVariants([]*annotations.OneofDiscriminatorInfo{info}, nestedProps)
+		parts = append(parts, &base.Schema{
+			Type:          []string{"object"},
+			Properties:    nestedProps,
+			OneOf:         groups[0],
+			Discriminator: g.buildNestedDiscriminator(info),
+		})
 	}
 
-	// Build main schema with oneOf + discriminator
-	schema := &base.Schema{
-		OneOf: allVariantRefs,
-	}
-
-	// Build discriminator with mapping (use first flattened oneof's discriminator)
-	if len(allMappings) > 0 {
-		schema.Discriminator = g.buildFlattenedDiscriminator(allMappings[0], msgName)
+	schema := parts[0]
+	if len(parts) > 1 {
+		schema = &base.Schema{}
+		for _, part := range parts {
+			schema.AllOf = append(schema.AllOf, base.CreateSchemaProxy(part))
+		}
 	}
 
 	// Add description from message comments
@@ -355,6 +361,38 @@ func (g *Generator) buildFlattenedVariantSchemas(
 		))
 	}
 
+	// A oneof may be unset: the message then carries neither the discriminator nor a variant's members
+	unsetSchemaName := fmt.Sprintf("%s_no_%s", msgName, info.Discriminator)
+	for taken := true; taken; {
+		taken = false
+		for _, variant := range info.Variants {
+			if fmt.Sprintf("%s_%s", msgName, variant.DiscriminatorVal) == unsetSchemaName {
+				unsetSchemaName += "_"
+				taken = true
+			}
+		}
+	}
+	unsetProps := orderedmap.New[string, *base.SchemaProxy]()
+	var unsetRequired []string
+	for _, field := range message.Fields {
+		if oneofFields[string(field.Desc.Name())] {
+			continue
+		}
+		unsetProps.Set(field.Desc.JSONName(), g.convertField(field))
+		if checkIfFieldRequired(field) {
+			unsetRequired = append(unsetRequired, field.Desc.JSONName())
+		}
+	}
+	g.schemas.Set(unsetSchemaName, base.CreateSchemaProxy(&base.Schema{
+		Type:       []string{"object"},
+		Properties: unsetProps,
+		Required:   unsetRequired,
+		Not:        base.CreateSchemaProxy(&base.Schema{Required: []string{info.Discriminator}}),
+	}))
+	refs = append(refs, base.CreateSchemaProxyRef(
+		fmt.Sprintf("#/components/schemas/%s", unsetSchemaName),
+	))
+
 	return refs
 }
 
@@ -397,7 +435,7 @@ func (g *Generator) buildNestedOneofSchema(
 	}
 
 	// For each non-flattened discriminated oneof, add discriminator property and oneOf
-	oneOfSchemas, discInfo := g.buildNestedOneofVariants(discriminatedOneofs, properties)
+	groups := g.buildNestedOneofVariants(discriminatedOneofs, properties)
 
 	schema := &base.Schema{
 		Type:       []string{"object"},
@@ -408,12 +446,18 @@ func (g *Generator) buildNestedOneofSchema(
 		schema.Required = required
 	}
 
-	if len(oneOfSchemas) > 0 {
-		schema.OneOf = oneOfSchemas
+	// One oneOf per discriminated oneof; several of them are combined with allOf
+	if len(groups) == 1 {
+		schema.OneOf = groups[0]
+		schema.Discriminator = g.buildNestedDiscriminator(discriminatedOneofs[0])
 	}
-
-	if discInfo != nil {
-		schema.Discriminator = g.buildNestedDiscriminator(discInfo)
+	if len(groups) > 1 {
+		for i, group := range groups {
+			schema.AllOf = append(schema.AllOf, base.CreateSchemaProxy(&base.Schema{
+				OneOf:         group,
+				Discriminator: g.buildNestedDiscriminator(discriminatedOneofs[i]),
+			}))
+		}
 	}
 
 	// Add description from comments
@@ -424,17 +468,16 @@ func (g *Generator) buildNestedOneofSchema(
 	return base.CreateSchemaProxy(schema)
 }
 
-// buildNestedOneofVariants builds oneOf variant schemas and discriminator enum property
-// for nested (non-flattened) discriminated oneofs.
+// buildNestedOneofVariants builds the oneOf variant schemas (one group per oneof) and the discriminator
+// enum properties for nested (non-flattened) discriminated oneofs.
 func (g *Generator) buildNestedOneofVariants(
 	discriminatedOneofs []*annotations.OneofDiscriminatorInfo,
 	properties *orderedmap.Map[string, *base.SchemaProxy],
-) ([]*base.SchemaProxy, *annotations.OneofDiscriminatorInfo) {
-	var oneOfSchemas []*base.SchemaProxy
-	var discInfo *annotations.OneofDiscriminatorInfo
+) [][]*base.SchemaProxy {
+	var groups [][]*base.SchemaProxy
 
 	for _, info := range discriminatedOneofs {
-		discInfo = info
+		var oneOfSchemas []*base.SchemaProxy
 
 		// Add discriminator property with enum of all possible values
 		var enumValues []*yaml.Node
@@ -456,14 +499,26 @@ func (g *Generator) buildNestedOneofVariants(
 			} else {
 				variantProps.Set(fieldJSONName, g.convertScalarField(variant.Field))
 			}
+			// The branch is selected by the discriminator value: without it every object matched every branch
+			variantProps.Set(info.Discriminator, base.CreateSchemaProxy(&base.Schema{
+				Type: []string{"string"},
+				Enum: []*yaml.Node{{Kind: yaml.ScalarNode, Value: variant.DiscriminatorVal}},
+			}))
 			oneOfSchemas = append(oneOfSchemas, base.CreateSchemaProxy(&base.Schema{
 				Type:       []string{"object"},
 				Properties: variantProps,
+				Required:   []string{info.Discriminator},
 			}))
 		}
+		// A oneof may be unset: no discriminator on the wire then
+		oneOfSchemas = append(oneOfSchemas, base.CreateSchemaProxy(&base.Schema{
+			Type: []string{"object"},
+			Not:  base.CreateSchemaProxy(&base.Schema{Required: []string{info.Discriminator}}),
+		}))
+		groups = append(groups, oneOfSchemas)
 	}
 
-	return oneOfSchemas, discInfo
+	return groups
 }
 
 // buildNestedDiscriminator creates the discriminator object with mapping for a nested oneof.
